@@ -70,7 +70,9 @@ for (prop, i), r in sorted(final.items()):
         ctext = "tools/confirm_seed.sh (scratch worktree): " + " | ".join(ls)[:900]
     f0 = first.get((prop, i))
     det = classify(r)
-    if f0 is not None and classify(f0) != det:
+    def cls(x):
+        return "missed" if x["viol"] == 0 else ("nofail" if x["nofail"] and x["viol"] == x["nofail"] else "caught")
+    if f0 is not None and cls(f0) != cls(r):
         det = "initially %s; after strengthening the check: %s" % (classify(f0), det)
     det += " (%s)" % re.sub(r"^\[C\d\d\s+[\d.]+s\] done: ", "", r["done"])
     meta = {"property": prop, "round": 2, "breaks": breaks, "needs_to_manifest": needs,
